@@ -16,7 +16,7 @@ def pmap(func, items, chunk=None, procs=None):
     global _FUNC
     items = list(items)
     procs = procs or env.nprocs()
-    if procs <= 1 or len(items) < 32:
+    if procs <= 1 or len(items) < 4:
         return [func(x) for x in items]
     if chunk is None:
         chunk = max(1, min(256, len(items) // (procs * 8) or 1))
